@@ -84,6 +84,26 @@ Inverse(M, n) == LET d == Det(M, n) IN
 MatVec(M, n, m, v) == [r \in 1..n |-> CSumF([c \in 1..m |-> CMul(M[r][c], v[c])], 1, m)]
 MatMul(A, n, k, B, m) == [r \in 1..n |-> [c \in 1..m |-> CSumF([i \in 1..k |-> CMul(A[r][i], B[i][c])], 1, k)]]
 
+\* Gauss-Jordan elimination on the augmented matrix [A | b]; <<>> if A is singular.
+\* (Exact arithmetic: any non-zero pivot will do; the first one is taken.)
+RECURSIVE GJ(_,_,_)
+GJ(A, n, k) == IF k > n THEN A ELSE
+   LET piv == {r \in k..n : ~CIsZero(A[r][k])} IN
+   IF piv = {} THEN <<>>
+   ELSE LET p == CHOOSE r \in piv : \A o \in piv : r <= o
+            A1 == [r \in 1..n |-> IF r = k THEN A[p] ELSE IF r = p THEN A[k] ELSE A[r]]
+            ip == CInv(A1[k][k])
+            rowk == [c \in 1..(n+1) |-> IF c < k THEN C0 ELSE CMul(A1[k][c], ip)]
+            A2 == [r \in 1..n |-> IF r = k THEN rowk
+                                  ELSE IF CIsZero(A1[r][k]) THEN A1[r]
+                                  ELSE [c \in 1..(n+1) |-> IF c < k THEN A1[r][c] ELSE CSub(A1[r][c], CMul(A1[r][k], rowk[c]))]]
+        IN GJ(A2, n, k + 1)
+\* solution vector of M x = b, or <<>> if M is singular
+LinSolve(M, n, b) == IF n = 0 THEN [j \in 1..0 |-> C0] ELSE
+   LET R == GJ([r \in 1..n |-> [c \in 1..(n+1) |-> IF c <= n THEN M[r][c] ELSE b[r]]], n, 1)
+   IN IF R = <<>> THEN <<>> ELSE [j \in 1..n |-> R[j][n+1]]
+NonSingular(M, n) == n = 0 \/ GJ([r \in 1..n |-> [c \in 1..(n+1) |-> IF c <= n THEN M[r][c] ELSE C0]], n, 1) # <<>>
+
 \* ---------- small helpers on finite sets of integers
 Rank(S, x) == Cardinality({m \in S : m < x}) + 1
 NthOf(S, r) == CHOOSE x \in S : Rank(S, x) = r
